@@ -280,6 +280,8 @@ def main():
             before = json.load(f)['table']
         print('\n== compared with %s' % cmp_)
         for key in sorted(table):
+            if table[key]['kind'] == 'mutation':
+                continue                        # (judged above; they have no "before")
             for t, r in sorted(table[key]['targets'].items()):
                 b = before.get(key, {}).get('targets', {}).get(t)
                 if b is None and key in before:
